@@ -54,6 +54,11 @@ def check_program(ctx: Ctx, init: FuncInfo):
     prog = CircuitProgram(init)
     events = prog.run()
     st, idx, flat = state_at_first_oracle(events, ("in", "out", "phase"))
+    unplaced = [e for e in flat if "?loop" in e[1:]]
+    if unplaced:
+        raise AnchorError(init.short, f"gates emitted in a loop over an iterable outside the tables: {c16._show(unplaced)}")
+    subset = [e for e in flat if "in~" in e[1:]]
+    ctx.check(not subset, "TS-PREP", init, "no gate layer is restricted to a run-time-selected subset of the qubits", "", f"{c16._show(subset)}: the loop visits only the qubits passing a run-time filter - preparation and diffuser must cover the whole search register", init.node)
     if st is None:
         ctx.fail("TS-PREP", init, "an oracle is applied", f"no oracle application in {c16._show(flat)}", init.node)
         return
